@@ -16,6 +16,8 @@ import (
 	"fmt"
 	"go/constant"
 	"go/types"
+	"sort"
+	"strconv"
 	"strings"
 
 	"golang.org/x/tools/go/ssa"
@@ -383,6 +385,32 @@ func (e *Engine) bmainSpec(env *Env, fun string, args []Expr) (TV, bool, error) 
 			return TV{}, true, err
 		}
 		return TV{pathSimpleTerm(ts[0]), boolT}, true, nil
+	case "mkstruct":
+		// mkstruct("pkg.Type", f0, f1, ...): a struct value (e.g. a map key) built from its fields in order
+		if len(args) < 1 {
+			return TV{}, true, fmt.Errorf("mkstruct(\"T\", fields...)")
+		}
+		tn, ok := args[0].(*EStr)
+		if !ok {
+			return TV{}, true, fmt.Errorf("mkstruct: first argument is the type name as a string")
+		}
+		ty, _, err := e.resolveType(env, tn.Val)
+		if err != nil || ty == nil {
+			return TV{}, true, fmt.Errorf("mkstruct: %v", err)
+		}
+		st, ok := ty.Underlying().(*types.Struct)
+		if !ok || st.NumFields() != len(args)-1 {
+			return TV{}, true, fmt.Errorf("mkstruct: %s is not a struct with %d fields", tn.Val, len(args)-1)
+		}
+		var fs []Term
+		for _, a := range args[1:] {
+			t, err := e.evalTerm(env, a)
+			if err != nil {
+				return TV{}, true, err
+			}
+			fs = append(fs, t)
+		}
+		return TV{e.tm.MkStruct(ty, fs), ty}, true, nil
 	case "contains":
 		ts, err := terms(2)
 		if err != nil {
@@ -516,4 +544,127 @@ func (e *Engine) goInline(s *State, fr *Frame, x *ssa.Go) ([]*State, bool, bool)
 		return succ, done, true
 	}
 	return nil, false, false
+}
+
+// ---------------------------------------------------------------------------
+// preserves: trusted complement frames
+
+func (w *WriteSet) setAllExcept(why string, ex map[string]bool) {
+	if w.All {
+		if w.Except == nil {
+			return
+		}
+		for k := range w.Except {
+			if !ex[k] {
+				delete(w.Except, k)
+			}
+		}
+		return
+	}
+	w.All = true
+	w.Why = why
+	w.Except = map[string]bool{}
+	for k := range ex {
+		w.Except[k] = true
+	}
+}
+
+// preserved: key k is certainly not written (All with an exception for k, and no explicit write of k).
+func (w *WriteSet) preserved(k string) bool {
+	return w.All && w.Except != nil && w.Except[k] && !w.Heap[k]
+}
+
+// preservedKeys resolves the items of a `preserves` clause: Mem(T) = element memory of []T, Fields(T) = every
+// field of struct T; T is a full import path + name (or a basic type).
+func (e *Engine) preservedKeys(c *FuncContract) map[string]bool {
+	out := map[string]bool{}
+	for _, item := range strings.Split(c.Flags["preserves"], ",") {
+		item = strings.TrimSpace(item)
+		if item == "" {
+			continue
+		}
+		open, close := strings.Index(item, "("), strings.LastIndex(item, ")")
+		if open < 0 || close < open {
+			e.bail("preserves clause of %s: item %q is not Mem(T) or Fields(T)", shortKey(c.Key), item)
+		}
+		ty, _, err := e.resolveType(nil, item[open+1:close])
+		if err != nil || ty == nil {
+			e.bail("preserves clause of %s: %v", shortKey(c.Key), err)
+		}
+		switch item[:open] {
+		case "Mem":
+			k, _ := e.memKey(ty)
+			out[k] = true
+		case "Box":
+			// variables of type T that live in the heap (locals captured by closures / whose address is taken)
+			k, _ := e.boxKey(ty)
+			out[k] = true
+		case "Fields":
+			st, ok := ty.Underlying().(*types.Struct)
+			if !ok {
+				e.bail("preserves clause of %s: %s is not a struct", shortKey(c.Key), item)
+			}
+			for i := 0; i < st.NumFields(); i++ {
+				k, _ := e.fieldKey(ty, i)
+				out[k] = true
+			}
+		default:
+			e.bail("preserves clause of %s: item %q is not Mem(T), Box(T) or Fields(T)", shortKey(c.Key), item)
+		}
+	}
+	return out
+}
+
+// lookupLocalNth resolves "name__n": the n-th local variable called name, counted in source order of the
+// declarations (for go/ssa's hidden range variables: the order of the range statements).
+func (e *Engine) lookupLocalNth(fr *Frame, name, nth string) (*Ptr, types.Type, bool) {
+	n, err := strconv.Atoi(nth)
+	if err != nil || n < 1 {
+		return nil, nil, false
+	}
+	var als []*ssa.Alloc
+	for _, b := range fr.fn.Blocks {
+		for _, in := range b.Instrs {
+			if al, ok := in.(*ssa.Alloc); ok && al.Comment == name {
+				als = append(als, al)
+			}
+		}
+	}
+	// hidden variables have no position of their own: order by the first positioned instruction that uses them
+	posOf := func(al *ssa.Alloc) int {
+		if al.Pos().IsValid() {
+			return int(al.Pos())
+		}
+		best := 0
+		if refs := al.Referrers(); refs != nil {
+			for _, r := range *refs {
+				if p := int(r.Pos()); p > 0 && (best == 0 || p < best) {
+					best = p
+				}
+			}
+		}
+		if best == 0 {
+			// fall back to the position of the enclosing block's first positioned instruction
+			for _, in := range al.Block().Instrs {
+				if p := int(in.Pos()); p > 0 {
+					return p
+				}
+			}
+		}
+		return best
+	}
+	sort.SliceStable(als, func(i, j int) bool { return posOf(als[i]) < posOf(als[j]) })
+	if n > len(als) {
+		return nil, nil, false
+	}
+	al := als[n-1]
+	v, live := fr.regs[al]
+	if !live {
+		return nil, nil, false
+	}
+	p, ok := v.(*Ptr)
+	if !ok {
+		return nil, nil, false
+	}
+	return p, al.Type().(*types.Pointer).Elem(), true
 }
